@@ -126,8 +126,8 @@ def DFile.fromPath (p : Path) (checkSize ignoreMissing : Bool) : DFile :=
     { path := p, variants := [], checkSize := checkSize, ignoreErrors := false,
       ignoreMissing := ignoreMissing } p 0 none false
 
-/-- `DownloadFile.from_hashed_path` -/
+/-- `DownloadFile.from_hashed_path` (after fix ab648fb: the size-0 placeholder variant is dropped) -/
 def DFile.fromHashedPath (p : Path) (size : Nat) (a : Algo) (h : String) (useByHash : Bool) : DFile :=
-  (DFile.fromPath (uncompressedPath p) false false).addVariant p size (some (a, h)) useByHash
+  ({ DFile.fromPath (uncompressedPath p) false false with variants := [] }).addVariant p size (some (a, h)) useByHash
 
 end AptMirror
